@@ -700,7 +700,14 @@ class Tuple(SerializableBase):
         self._prim_seq: Tuple[SERIALIZABLE_TYPE] = tuple(args)
 
     def calc_size(self):
-        return sum(p.calc_size() for p in self._prim_seq)
+        sum_bytes = 0
+        for p in self._prim_seq:
+            size = p.calc_size()
+            # A member without a fixed size means we don't have one either
+            if size is None:
+                return None
+            sum_bytes += size
+        return sum_bytes
 
     def serialize(self, vals, writer: BufferWriter, ctx: Optional[ParseContext]):
         ctx = ParseContext(vals, parent=ctx)
